@@ -75,8 +75,10 @@ Definition S_dte_add : akind * morder := (KAdd, Release).
 Record cfg := { c_self : Z; c_ismain : bool; c_floor : Z; c_main : Z (* lock value of the bound thread *);
                 c_p2 : bool (* the run calls dispatch_main(): the handle is closed at some point *) }.
 
-Inductive tcont := TRet | TWait | TLoop | TExit | TVia.   (* after push + wakeup: return / park / back in the drain loop / end of drain /
+Inductive tcont := TRet | TWait | TLoop | TExit | TVia    (* after push + wakeup: return / park / back in the drain loop / end of drain /
                                                               back in a call that goes through a queue targeting the main queue *)
+  | TIn (w : Z)                                             (* ... / back in the callout of a work item on the bound thread that submitted *)
+  | TKIn (o : Z) (more : bool).                             (* ... / back in the callout of a work item on a worker (after dispatch_main()) *)
 
 Inductive tpc :=
 | TIdle
@@ -122,7 +124,8 @@ Inductive tpc :=
 | TK_unlock (o old : Z).
 
 Definition done (k : tcont) : tpc :=
-  match k with TRet => TDone TRet | TWait => TS_dec | TLoop => TB_loop | TExit => TDone TExit | TVia => TV end.
+  match k with TRet => TDone TRet | TWait => TS_dec | TLoop => TB_loop | TExit => TDone TExit | TVia => TV
+  | TIn w => TDone (TIn w) | TKIn o more => TDone (TKIn o more) end.
 
 (* the first load of dq_atomic_flags of _dispatch_main_queue_wakeup decides the way *)
 Definition wake_entry (k : tcont) (d : bool) (e : event) : option tpc :=
@@ -231,6 +234,8 @@ Definition tstep0 (c : cfg) (p : tpc) (e : event) : option tpc :=
       match k with
       | TRet => if ek e =? DVU_RET then Some TIdle else None
       | TExit => if is_mark e 2 then Some TIdle else None
+      | TIn w => if ek e =? DVU_RET then Some (TB_in w) else None
+      | TKIn o more => if ek e =? DVU_RET then Some (TK_in o more) else None
       | _ => None
       end
   (* ---- a call through a queue that targets the main queue (permissive: the queue's own words are not observed):
@@ -294,6 +299,7 @@ Definition tstep0 (c : cfg) (p : tpc) (e : event) : option tpc :=
       else wake_entry TExit false e                                      (* dx_wakeup(dq, 0, 0) at the end of the drain *)
   | TB_in w =>
       if is_mark e 4 then Some (TB_in w)                                 (* nested run loop: read; its callback returns at once *)
+      else if is_call e && (eb e =? 0) && async_kind (eobj e) then Some (TP_xchg (TIn w))   (* the work item submits to the main queue *)
       else if (ek e =? DVU_CALLOUT_END) && (eb e =? w) then Some (if w =? 0 then TB_loop else TB_sig w)
       else None
   | TB_sig w =>
@@ -353,7 +359,9 @@ Definition tstep0 (c : cfg) (p : tpc) (e : event) : option tpc :=
   | TK_run o more => if (ek e =? DVU_CALLOUT_BEGIN) && (eb e =? 0) then Some (TK_in o more) else None
   | TK_in o more =>
       if (ek e =? DVU_CALLOUT_END) && (eb e =? 0)
-      then Some (if more then TK_state o else TK_tail o (after_loop_owned o)) else None
+      then Some (if more then TK_state o else TK_tail o (after_loop_owned o))
+      else if is_call e && (eb e =? 0) && async_kind (eobj e) then Some (TP_xchg (TKIn o more))
+      else None
   | TK_unlock o old =>
       match f_dispatch_queue_drain_try_unlock 0 o 1 old with
       | Commit new _ =>
@@ -440,10 +448,12 @@ Definition tag (p : tpc) (e : event) (p' : tpc) : Z :=
   | TK_unlock _ _, TIdle => 37
   | TK_unlock _ _, TK_tail _ _ => 38                                    (* unlock refused: DIRTY *)
   | TK_tail _ _, TK_headwait _ | TK_headwait _, TK_headwait _ => 39
+  | TB_in _, TP_xchg _ => 41                                            (* a work item on the bound thread submits to the main queue *)
+  | TK_in _ _, TP_xchg _ => 42                                          (* a work item on a worker submits to the main queue *)
   | TW_mbody _ _, TDone _ | TW_poke _ _, TDone _ | TW_mbody _ _, TIdle | TW_poke _ _, TIdle | TW_mbody _ _, TS_dec | TW_poke _ _, TS_dec => if ek e =? DVU_MARK then 0 else 40   (* poke skipped: handle closed *)
   | _, _ => 0
   end.
-Definition NTAGS : nat := 41.
+Definition NTAGS : nat := 43.
 
 Fixpoint bump (l : list Z) (k : nat) : list Z :=
   match l, k with
